@@ -503,3 +503,39 @@ func ShrinkBytes(x []byte, fails func([]byte) bool) []byte {
 	}
 	return cur
 }
+
+// PanicOrigin returns the function of the innermost frame of a panic's stack (the frame that raised it),
+// skipping the runtime's own frames.
+func PanicOrigin(stack string) string {
+	lines := strings.Split(stack, "\n")
+	seenPanic := false
+	for _, l := range lines {
+		if strings.HasPrefix(l, "panic(") {
+			seenPanic = true
+			continue
+		}
+		if !seenPanic || strings.HasPrefix(l, "\t") || l == "" {
+			continue
+		}
+		if strings.HasPrefix(l, "runtime.") || strings.HasPrefix(l, "reflect.") || strings.HasPrefix(l, "internal/") || strings.HasPrefix(l, "strconv.") || strings.HasPrefix(l, "sort.") {
+			continue
+		}
+		return l
+	}
+	return ""
+}
+
+// EscapedPanic records a panic that reached the top of the batch as a violation when it was raised inside
+// ojg code (a call the property's workload did not guard by itself): entry and case are the last intent.
+func (c *Ctx) EscapedPanic(pn *Panic) bool {
+	origin := PanicOrigin(pn.Stack)
+	if !strings.HasPrefix(origin, "github.com/ohler55/ojg/") {
+		return false
+	}
+	entry, cs := "unknown entry", any(nil)
+	if it, _ := c.cur.Load().(*intent); it != nil {
+		entry, cs = it.Entry, it.Case
+	}
+	c.Violation(entry, "panic-escaped", FaultClass(pn.Msg), cs, "a result or an error", pn.String())
+	return true
+}
